@@ -188,7 +188,7 @@ the `Print Assumptions` summary.
 | C02 | `isclose` = per-term spec, symmetric, order / other-term independent | Majorana commutation test, `is_normal_ordered` = fixed points of normal ordering | ==, !=, isclose, predicates, tensor equality | - |
 | C03 | CAR in the Fock semantics; checker soundness | normal-ordering model sound / ordered / idempotent for all words <= 4 (fermion 3 modes; boson, quad hbar 2 and 1/2) | all three algebras, InteractionOperator, chemist_ordered, reorder, canonicity pairs | - |
 | C04 | JW ladder / operator soundness; checker soundness | - | every fast path (InteractionOperator, DCH, one_body/two_body on all index tuples < 4, reverse JW); dual-basis jellium / plane-wave helpers on cubic, rectangular and sheared cells (tolerance 1e-9 inside Coq) | - |
-| C05 | `C05_bk_ladder_linear` (every n, mode, state, given decidable mask identities); `C05_bk_sound_upto_128` (every operator and state, n <= 128), encoding injective | encoding validity for every n_qubits <= 7 (BK and BK-tree); Fenwick set identities n_qubits <= 128 | index sets (n <= 48/128), images, operators, encoding property on outputs, SRL all (i,j) n <= 16/40, InteractionOperator path | - |
+| C05 | `C05_bk_ladder_linear` (every n, mode, state, given decidable mask identities); `C05_bk_sound_upto_128` (every operator and state, n <= 128), encoding injective; `C05_bkt_sound_upto_40` (tree variant) | encoding validity for every n_qubits <= 7 (BK and BK-tree); Fenwick set identities n_qubits <= 128 | index sets (n <= 48/128), images, operators, encoding property on outputs, SRL all (i,j) n <= 16/40, InteractionOperator path | - |
 | C06 | product = composition (basis of MatrixOf) | - | every matrix entry of sparse operators vs MatrixOf / Bargmann; matvec, parallel matvec (forced orders), diagonal, expectation, variance | quad matrices, eigenspectrum traces |
 | C07 | adjoint theorem; commutator-checker soundness | - | hermitian_conjugated, (anti)commutator, double commutator + hopping shortcut, all dual-basis pairs / triples, DC commutator, trotter_error predicates, bch_expand against an exact BCH series (nilpotent exp/log inside Coq) | - |
 | C08 | checker soundness | - | tensor arithmetic, all conversions and round trips, boson<->quad, rotate_basis = substitution, DOCI | rotation spectra |
@@ -227,7 +227,7 @@ LIMITS = r'''
   theorems that exist are listed in section 3.
 * **Not done (planned as P2/P3):** `pauli_faithful` (completeness of the normal form), a symbolic proof
   of the Fenwick identities for all n (the linear-encoding theorem is proved; its side conditions are
-  computed for n <= 128), the same for `bravyi_kitaev_tree`, an unbounded proof for `pair_within`
+  computed for n <= 128, tree variant n <= 40), an unbounded proof for `pair_within`
   (bounded instead),
   real-analysis
   lemmas for gate families, `[S]` symbolic-size theorems (replaced by per-input exact checks).
